@@ -56,6 +56,10 @@ pub const BUILD: &str = if cfg!(not(blake3_team_blake3_verif)) {
     } else {
         "stock"
     }
+} else if cfg!(feature = "no_sse2") {
+    "portable_only"
+} else if cfg!(feature = "no_avx2") {
+    "max_sse41"
 } else if cfg!(feature = "intr") {
     "intr"
 } else if cfg!(feature = "pure") {
